@@ -1067,11 +1067,46 @@ func codeDecidedRefusals(c *Ctx, r *RuleResult, runs []*fsRun, methods map[strin
 			continue
 		}
 		for k := range run.PathRel {
-			if !strings.HasPrefix(k, "strings.HasPrefix(") || seenP[k] {
+			if !strings.HasPrefix(k, "strings.HasPrefix(") {
+				continue
+			}
+			ok := strings.HasSuffix(k, `+"/"))`) || strings.HasSuffix(k, `+"\\"))`)
+			if !ok {
+				// ... or the prefix was found to end in one already
+				// (HasSuffix(p, sep) came out true in this run)
+				inner := strings.TrimSuffix(strings.TrimPrefix(k, "strings.HasPrefix("), ")")
+				depth, cut := 0, -1
+				for i, ch := range inner {
+					switch ch {
+					case '(', '[':
+						depth++
+					case ')', ']':
+						depth--
+					case ',':
+						if depth == 0 && cut < 0 {
+							cut = i
+						}
+					}
+				}
+				if cut >= 0 {
+					pfx := inner[cut+1:]
+					if strings.Contains(run.Val, `strings.HasSuffix(`+pfx+`,"/")=true`) || strings.Contains(run.Val, `strings.HasSuffix(`+pfx+`,"\\")=true`) {
+						ok = true
+					}
+				}
+			}
+			// one obligation (and one report) per test, judged on every run
+			// in which it is made
+			if seenP[k] && ok {
+				continue
+			}
+			if seenP[k+"|bad"] {
 				continue
 			}
 			seenP[k] = true
-			ok := strings.HasSuffix(k, `+"/"))`) || strings.HasSuffix(k, `+"\\"))`)
+			if !ok {
+				seenP[k+"|bad"] = true
+			}
 			r.Ob(ok)
 			if !ok {
 				r.Violation("prefix-without-separator|"+run.Method, "-", fmt.Sprintf("%s decides whether one of source and destination lies inside the other with %s: the prefix does not end in a path separator, so /a is taken to contain /ab and a legitimate request between siblings is refused (or a nested one is not)", run.Method, k), nil)
